@@ -13,6 +13,7 @@ From Verif Require Import Lib.Params Lib.Words Lib.NumberTheory Model.FfLimbs
 From Verif Require Proofs.GapField.
 From Verif Require Gen.FfRoutines Gen.FfAsm.
 From Verif Require Lib.Words Lib.GoGlue Gen.FfGlue Gen.FfgGlue Proofs.FfGlueEq Proofs.FfgGlueEq Model.FfLimbs Model.FfgLimbs Model.FfConv Model.FfgConv.
+From Verif Require Gen.FfMem Proofs.FfMemEq Gen.FfRoutines.
 Import ListNotations.
 Local Open Scope Z_scope.
 
@@ -289,6 +290,46 @@ Theorem C05_glue_inverse_terminates : forall x, FfLimbs.canon x ->
   exists z, FfGlue.Element_Inverse FfLimbs.outer_fuel FfLimbs.inner_fuel FfLimbs.inner_fuel x = GoGlue.Done z /\ FfLimbs.inverse x = Some z.
 Proof. exact FfGlueEq.gen_Inverse_canon. Qed.
 
+(* ---- "also when the destination is the same object as one or both operands", PORTABLE code:
+   tools/limbgen emits every pointer-taking limb routine a second time in a MEMORY semantics
+   (FfMem: a store obj -> el, loads and stores in Go statement order, pointer parameters
+   are object ids about which nothing is assumed); for ALL object ids (equal or not) and all stores
+   the destination ends up holding the value-level result computed from the INITIAL operands and
+   every other object is unchanged ---- *)
+Theorem C05_portable_aliasing : forall z x y m,
+  FfMemEq.ok3 FfMem.addGeneric_mem FfRoutines.addGeneric z x y m /\
+  FfMemEq.ok3 FfMem.subGeneric_mem FfRoutines.subGeneric z x y m /\
+  FfMemEq.ok3 FfMem.mulGeneric_mem FfRoutines.mulGeneric z x y m /\
+  FfMemEq.ok3 FfMem.Element_Add_mem FfRoutines.Element_Add z x y m /\
+  FfMemEq.ok3 FfMem.Element_Sub_mem FfRoutines.Element_Sub z x y m /\
+  FfMemEq.ok3 FfMem.Element_Mul_mem FfRoutines.Element_Mul z x y m /\
+  FfMemEq.ok2 FfMem.Element_Square_mem FfRoutines.Element_Square z x m /\
+  FfMemEq.ok2 FfMem.doubleGeneric_mem FfRoutines.doubleGeneric z x m /\
+  FfMemEq.ok2 FfMem.negGeneric_mem FfRoutines.negGeneric z x m /\
+  FfMemEq.ok2 FfMem.Element_Double_mem FfRoutines.Element_Double z x m /\
+  FfMemEq.ok2 FfMem.Element_Neg_mem FfRoutines.Element_Neg z x m /\
+  FfMemEq.ok2 FfMem.Element_Set_mem FfRoutines.Element_Set z x m /\
+  FfMemEq.ok1 FfMem.fromMontGeneric_mem FfRoutines.fromMontGeneric z m /\
+  FfMemEq.ok1 FfMem.reduceGeneric_mem FfRoutines.reduceGeneric z m.
+Proof.
+  intros z x y m.
+  exact (conj (FfMemEq.addGeneric_mem_ok z x y m) (conj (FfMemEq.subGeneric_mem_ok z x y m) (conj (FfMemEq.mulGeneric_mem_ok z x y m)
+        (conj (FfMemEq.Element_Add_mem_ok z x y m) (conj (FfMemEq.Element_Sub_mem_ok z x y m) (conj (FfMemEq.Element_Mul_mem_ok z x y m)
+        (conj (FfMemEq.Element_Square_mem_ok z x m) (conj (FfMemEq.doubleGeneric_mem_ok z x m) (conj (FfMemEq.negGeneric_mem_ok z x m)
+        (conj (FfMemEq.Element_Double_mem_ok z x m) (conj (FfMemEq.Element_Neg_mem_ok z x m) (conj (FfMemEq.Element_Set_mem_ok z x m)
+        (conj (FfMemEq.fromMontGeneric_mem_ok z m) (FfMemEq.reduceGeneric_mem_ok z m)))))))))))))).
+Qed.
+
+(* Butterfly(a, b): correct for distinct objects; for a = b the portable code leaves a - (a + a)
+   in the object (the known finding of C05: the assembly leaves a + a) *)
+Theorem C05_portable_butterfly : forall a b fr m, a <> b -> (a < fr)%nat -> (b < fr)%nat ->
+  FfMem.butterflyGeneric_mem a b fr m a = fst (FfRoutines.butterflyGeneric (m a) (m b)) /\
+  FfMem.butterflyGeneric_mem a b fr m b = snd (FfRoutines.butterflyGeneric (m a) (m b)).
+Proof.
+  intros a b fr m Hab Ha Hb.
+  destruct (FfMemEq.butterflyGeneric_mem_distinct a b fr m Hab Ha Hb) as [H1 [H2 _]]. exact (conj H1 H2).
+Qed.
+
 Print Assumptions C05_asm_mul_correct.
 Print Assumptions C05_asm_adx_mul_correct.
 Print Assumptions C05_asm_add_correct.
@@ -305,3 +346,5 @@ Print Assumptions C05_constants.
 Print Assumptions C05_div_by_zero.
 Print Assumptions C05_glue_is_the_source.
 Print Assumptions C05_glue_inverse_terminates.
+Print Assumptions C05_portable_aliasing.
+Print Assumptions C05_portable_butterfly.
